@@ -46,6 +46,39 @@ func stepOn(mem *mon.Mem, io *mon.IO, pre z80.States, bytes []uint8, ioSeed uint
 	return cpu.States, cpu.HALT, pan
 }
 
+// stepOnW is stepOn with two extras: a bus hook that looks at the OTHER index
+// register at every memory access of the Step (watch 1: IY during a DD form,
+// 2: IX during an FD form; it must hold its pre-value throughout, "neither form
+// ever reads or writes the other index register"), and optionally the
+// instruction supplied by a mode-0 device instead of being fetched from memory.
+func stepOnW(mem *mon.Mem, io *mon.IO, pre z80.States, bytes []uint8, ioSeed uint64, watch int, viaIM0 bool) (post z80.States, halt bool, pan interface{}, touched bool) {
+	mem.Reset()
+	io.Reset(ioSeed)
+	cpu := z80.CPU{States: pre, Memory: mem, IO: io}
+	if viaIM0 {
+		cpu.Interrupt = &z80.Interrupt{Type: z80.IMType, Data: append([]uint8(nil), bytes...)}
+	} else {
+		mem.Place(pre.PC, bytes...)
+	}
+	if watch != 0 {
+		mem.Hook = func(m *mon.Mem, a mon.Access) {
+			if watch == 1 && cpu.IY != pre.IY || watch == 2 && cpu.IX != pre.IX {
+				touched = true
+			}
+		}
+		defer func() { mem.Hook = nil }()
+	}
+	func() {
+		defer func() {
+			if p := recover(); p != nil {
+				pan = p
+			}
+		}()
+		cpu.Step()
+	}()
+	return cpu.States, cpu.HALT, pan, touched
+}
+
 func memImagesEqual(a, b *mon.Mem, except uint16, hasExcept bool) bool {
 	for _, ad := range a.Dirty(0) {
 		if hasExcept && ad == except {
@@ -71,7 +104,7 @@ func runC11(c *Ctx) {
 	mon.DiscardStdLog()
 	n := c.Pick(1000, 100000)
 	var mu sync.Mutex
-	var evals, nontriv, touching, nonInterf, aliased, directPairs int64
+	var evals, nontriv, touching, nonInterf, aliased, directPairs, im0Pairs int64
 	distinct := mon.NewDistinct(4_000_000)
 
 	// warning parity (single-threaded log monitor)
@@ -104,7 +137,7 @@ func runC11(c *Ctx) {
 		g := &pairRig{}
 		r := mon.NewRng(mon.Hash(uint64(c.Seed), uint64(si), 0xC11))
 		g.refill(r.U64())
-		var lev, lnt, ltouch, lni, lalias, ldirect int64
+		var lev, lnt, ltouch, lni, lalias, ldirect, lim0 int64
 		var dmem z80.DumbMemory
 		for k := 0; k < n; k++ {
 			if k&1023 == 1023 {
@@ -138,10 +171,10 @@ func runC11(c *Ctx) {
 				fd = []uint8{0xfd, op, d, o1, o2}
 			}
 			ioSeed := r.U64()
-			postD, haltD, panD := stepOn(&g.memA, &g.ioA, pre, dd, ioSeed)
+			postD, haltD, panD, touchD := stepOnW(&g.memA, &g.ioA, pre, dd, ioSeed, 1, false)
 			logD := append([]mon.Access(nil), g.memA.Log...)
 			portD := append([]mon.Access(nil), g.ioA.Log...)
-			postF, haltF, panF := stepOn(&g.memB, &g.ioB, swapIdx(pre), fd, ioSeed)
+			postF, haltF, panF, touchF := stepOnW(&g.memB, &g.ioB, swapIdx(pre), fd, ioSeed, 2, false)
 			lev++
 			bad := ""
 			// If the instruction reads the prefix byte's own address as data
@@ -163,6 +196,10 @@ func runC11(c *Ctx) {
 				continue
 			}
 			switch {
+			case touchD:
+				bad = "IY did not hold its value at every bus access of the DD form (the other index register is written temporarily)"
+			case touchF:
+				bad = "IX did not hold its value at every bus access of the FD form (the other index register is written temporarily)"
 			case panD != nil || panF != nil:
 				if (panD == nil) != (panF == nil) {
 					bad = "only one form panics"
@@ -273,6 +310,44 @@ func runC11(c *Ctx) {
 					}
 				}
 			}
+			// every 8th pair again with the instruction supplied by a mode-0 device instead of
+			// being fetched: the two forms must still mirror each other, refresh count
+			// included.  Only for plain (non-jumping) instructions whose data accesses stay
+			// clear of the bytes at PC (which the device's bytes overlay).
+			if bad == "" && panD == nil && k%8 == 5 {
+				ilen := int(postD.PC - pre.PC)
+				inWin := 0
+				plain := ilen >= 2 && ilen <= 5
+				for i, a := range logD {
+					if a.Addr-pre.PC < 6 || pre.PC-a.Addr < 2 {
+						inWin++
+						if i >= ilen || a.Kind != 'R' || a.Addr != pre.PC+uint16(i) {
+							plain = false
+						}
+					}
+				}
+				if plain && inWin == ilen {
+					pi := pre
+					pi.IM, pi.IFF1 = 0, true
+					pD, hD, xD, _ := stepOnW(&g.memA, &g.ioA, pi, dd[:ilen], ioSeed, 0, true)
+					lD := append([]mon.Access(nil), g.memA.Log...)
+					poD := append([]mon.Access(nil), g.ioA.Log...)
+					pF, hF, xF, _ := stepOnW(&g.memB, &g.ioB, swapIdx(pi), fd[:ilen], ioSeed, 0, true)
+					lim0++
+					switch {
+					case (xD == nil) != (xF == nil):
+						bad = "only one form panics when supplied by a mode-0 device"
+					case xD != nil:
+					case swapIdx(pF) != pD || hD != hF:
+						bad = "post-states differ after un-mirroring when the instruction is supplied by a mode-0 device"
+						postD, postF, haltD, haltF = pD, pF, hD, hF
+					case !mon.EqualSeq(lD, g.memB.Log) || !mon.EqualSeq(poD, g.ioB.Log):
+						bad = "access sequences differ when the instruction is supplied by a mode-0 device"
+					case !memImagesEqual(&g.memA, &g.memB, 0, false):
+						bad = "memory images differ when the instruction is supplied by a mode-0 device"
+					}
+				}
+			}
 			if postD != pre || len(logD) > 2 {
 				lnt++
 				if k < 2048 || k%5 == 0 {
@@ -305,6 +380,7 @@ func runC11(c *Ctx) {
 		nonInterf += lni
 		aliased += lalias
 		directPairs += ldirect
+		im0Pairs += lim0
 		mu.Unlock()
 	})
 	c.R.Set("evaluations", evals)
@@ -313,6 +389,7 @@ func runC11(c *Ctx) {
 	c.R.Set("distinct_nontrivial", distinct.N())
 	c.R.Set("non_interference_reruns", nonInterf)
 	c.R.Set("pairs_also_on_DumbMemory_directly", directPairs)
+	c.R.Set("pairs_also_supplied_by_a_mode0_device", im0Pairs)
 	c.R.Set("skipped_operand_aliases_prefix_byte", aliased)
 	c.R.Set("pairs_using_index_register", touching)
 	c.R.Set("second_bytes_covered", int64(255))
@@ -320,6 +397,6 @@ func runC11(c *Ctx) {
 	c.R.Set("states_per_byte", int64(n))
 	c.R.Set("exhaustive", false)
 	c.R.Set("exhaustive_over", "all 255 second bytes after DD/FD (CB handled via the 256 fourth bytes of DDCB/FDCB); pre-states sampled")
-	c.R.Set("rule", "for every second byte after DD/FD and every fourth byte after DDCB/FDCB (in scope or not), n boundary-biased states S with all 256 F and displacements cycled: Step the DD form from S and the FD form from swap(S) on identical memories/devices; swap(post_FD) must equal post_DD, HALT equal, memory access sequence equal address-for-address and value-for-value except the prefix byte's own value, port sequence equal, written images equal; then re-run each form with the other index register perturbed: nothing but that register may differ and it must stay unchanged; 'invalid code' warnings must agree pairwise; every 8th pair is repeated on a 64 KiB z80.DumbMemory handed to the CPU directly. Non-trivial = the Step changed a register other than none (post != pre) or made a data access; distinct = distinct (byte, d, case, IX, IY) hashes (first 2048 per byte then 1/5 sampled: a lower bound)")
+	c.R.Set("rule", "for every second byte after DD/FD and every fourth byte after DDCB/FDCB (in scope or not), n boundary-biased states S with all 256 F and displacements cycled: Step the DD form from S and the FD form from swap(S) on identical memories/devices; swap(post_FD) must equal post_DD, HALT equal, memory access sequence equal address-for-address and value-for-value except the prefix byte's own value, port sequence equal, written images equal; then re-run each form with the other index register perturbed: nothing but that register may differ and it must stay unchanged; 'invalid code' warnings must agree pairwise; every 8th pair is repeated on a 64 KiB z80.DumbMemory handed to the CPU directly, another 8th with both forms supplied by a mode-0 interrupting device (whole post-state incl. R, access sequences, images); a bus hook checks at every memory access of the Step that the other index register still holds its value. Non-trivial = the Step changed a register other than none (post != pre) or made a data access; distinct = distinct (byte, d, case, IX, IY) hashes (first 2048 per byte then 1/5 sampled: a lower bound)")
 	c.R.Assume("no reference model involved: a defect that is mirrored identically in both tables is C01's business")
 }
